@@ -36,7 +36,7 @@ def dec(e):
         return int(e[1])
     if t == "b":
         return bool(e[1])
-    if t == "f":
+    if t == "f" or t == "fi":
         return float(e[1])
     if t == "s":
         return str(e[1])
@@ -66,7 +66,7 @@ def enc(v):
         return ["i", v]
     if isinstance(v, float):
         if v.is_integer():
-            return ["i", int(v)]
+            return ["fi", int(v)]
         return ["f", v]
     if isinstance(v, str):
         return ["s", v]
